@@ -434,6 +434,20 @@ reg(Zoo(
 
 
 # ------------------------------------------------------------------------------------------------
+# orthoA / orthoS: a ROOT machine declared with a history policy; stop() followed by start()
+def _root_history():
+    import copy
+    for tag, hist in (('A', 'always'), ('S', ('shallow', ['e1']))):
+        z = copy.deepcopy(ZOO['ortho'])
+        z.name = 'ortho' + tag
+        z.root.history = hist
+        z.menu = []
+        reg(z)
+
+
+_root_history()
+
+# ------------------------------------------------------------------------------------------------
 # flags3: three nesting levels; F1 is carried only by a state of the innermost machine (no direct state of the
 # middle machine carries it), F2 by states of the root and of the middle machine, F3 at the innermost and middle level
 def _flags3():
